@@ -160,6 +160,26 @@ def hashseed_oracle(ctx: Ctx):
             ctx.report(f"the code for {a} differs across hash seeds / construction orders: {sorted(texts)[:3]}", {"kind": "seed", "expr": a, "expr2": b}, tag="F-05" if "frozenset([" in a and a.count("frozenset(") >= 2 else None)
         elif any(t.startswith("EXC") for t in texts):
             ctx.report(f"code_repr({a}) raised {texts}", {"kind": "seed", "expr": a, "expr2": b})
+    # the text of a value does not depend on what was converted BEFORE it in the same process: values that are == and hash alike but are written differently
+    hist = ["(0, 1.0)", "(False, 1)", "frozenset({1})", "frozenset({True})", "0.0", "-0.0", "[0.0]", "[-0.0]", "(1,)", "(True,)", "(1.0,)", "{1: 'a'}", "{True: 'a'}", "1", "True", "1.0",
+            "{'k': (0, -0.0)}", "{'k': (0, 0.0)}", "(0.0, [1])", "(-0.0, [True])", "b'a'", "'a'", "frozenset({0.0})", "frozenset({-0.0})", "frozenset({False})"]
+    fw, bw = tmap(run_seed, [(0, hist), (0, hist[::-1])])
+    for r in (fw, bw):
+        if "error" in r:
+            raise RuntimeError("child interpreter failed: " + r["error"])
+    for k, e in enumerate(hist):
+        a, b = fw["out"][k], bw["out"][len(hist) - 1 - k]
+        ctx.count(("history", e), True, n=2)
+        want = None
+        try:
+            want = eval(a) if not a.startswith("EXC") else None
+        except Exception:  # noqa
+            pass
+        if a != b:
+            ctx.report(f"the code for {e} depends on what was converted before it in the same process: {a!r} vs {b!r}", {"kind": "history", "expr": e})
+        elif a.startswith("EXC") or repr(want) != repr(eval(e)):
+            ctx.report(f"the code for {e} is {a!r}, which does not read back as the value", {"kind": "history", "expr": e})
+    ctx.coverage["oracle"]["process_history_values"] = len(hist)
     ctx.coverage["oracle"]["hash_seed_values"] = n
     ctx.coverage["oracle"]["hash_seeds"] = seeds
     ctx.sample({"value": pairs[0][0], "same_value_other_order": pairs[0][1], "text": res[0]["out"][0]})
@@ -225,7 +245,16 @@ def run(ctx: Ctx):
     formatter_oracle(ctx)
 
 
+def replay_history(expr):
+    hist = [expr, "(False, 1)", "(0, 1.0)", "frozenset({True})", "frozenset({1})", "-0.0", "0.0", "True", "1", "1.0", "[-0.0]", "[0.0]"]
+    fw, bw = run_seed((0, hist)), run_seed((0, hist[::-1]))
+    print(fw, bw)
+    return "error" not in fw and "error" not in bw and fw["out"][0] == bw["out"][-1]
+
+
 def replay(ctx: Ctx, data):
+    if isinstance(data.get("case"), dict) and data["case"].get("kind") == "history":
+        return replay_history(data["case"]["expr"])
     c = data["case"]
     if c.get("kind") in ("perm", "sort"):
         import itertools
